@@ -289,6 +289,10 @@ func c09(c *an.Ctx) {
 		}
 	})
 
+	c.Check("R-POST", "processSchemaVersions hands every version of every service to the intersection (the collecting loops append on every iteration)", 3, func(o *an.O) {
+		ruleEveryVersionMerged(c, o)
+	})
+
 	c.Check("R-BOOL", "mergeTypeRefs nullability lattice: non-null iff isInput || (aNonNull && bNonNull); recursion keeps isInput; callers pass false for outputs and true for inputs", 5, func(o *an.O) {
 		fn := c.NeedFunc(fed, "mergeTypeRefs")
 		// the NON_NULL wrapping return
